@@ -1,7 +1,6 @@
 package memory
 
 import (
-	"bytes"
 	"maps"
 	"slices"
 
@@ -17,13 +16,34 @@ type batch struct {
 	// behaviour of the real key-value store. Hence, we store them and then flush them afterwards.
 	writes   []keyValue
 	writeMap map[string]keyValue
-	size     int
+	// The ranges deleted so far (each one is also an entry of writes). A key without an entry in
+	// writeMap that lies in one of them is deleted by this batch.
+	ranges []keyValue
+	size   int
 }
 
 type keyValue struct {
 	key    string
 	value  []byte
 	delete bool
+	// A range deletion of [key, end), recorded as such and applied to whatever the store holds
+	// when the batch is written, as pebble's range tombstone is.
+	rangeDelete bool
+	end         string
+}
+
+func (kv *keyValue) covers(key string) bool {
+	return kv.rangeDelete && key >= kv.key && key < kv.end
+}
+
+// Reports whether key lies in a range this batch has deleted.
+func (b *batch) inDeletedRange(key string) bool {
+	for i := range b.ranges {
+		if b.ranges[i].covers(key) {
+			return true
+		}
+	}
+	return false
 }
 
 func newBatch(db *Database) *batch {
@@ -43,6 +63,10 @@ func (b *batch) Get(key []byte, cb func(value []byte) error) error {
 			return db.ErrKeyNotFound
 		}
 		return cb(val.value)
+	}
+
+	if b.inDeletedRange(string(key)) {
+		return db.ErrKeyNotFound
 	}
 
 	// Only the lookup in the store needs the store lock; the callback runs without it, as on
@@ -72,6 +96,10 @@ func (b *batch) Has(key []byte) (bool, error) {
 		return true, nil
 	}
 
+	if b.inDeletedRange(string(key)) {
+		return false, nil
+	}
+
 	_, ok := b.db.db[string(key)]
 	if ok {
 		return true, nil
@@ -93,6 +121,7 @@ func (b *batch) NewIterator(prefix []byte, withUpperBound bool) (db.Iterator, er
 		db:       tempDB,
 		writes:   slices.Clone(b.writes),
 		writeMap: maps.Clone(b.writeMap),
+		ranges:   slices.Clone(b.ranges),
 	}
 
 	// write the changes to the temporary db
@@ -133,24 +162,18 @@ func (b *batch) DeleteRange(start, end []byte) error {
 		return errBatchClosed
 	}
 
-	// Range-based, matching pebble's DeleteRange semantics: delete every
-	// key in [start, end). We iterate with a nil prefix (all keys), Seek
-	// to start, and stop at end. Prefix-bounded iteration would miss keys
-	// whose first bytes only partially share `start` — e.g. a chunk
-	// spanning multiple per-block entries under one address prefix.
-	it, err := b.NewIterator(nil, false)
-	if err != nil {
-		return err
-	}
-	defer it.Close()
+	// Range-based, matching pebble's DeleteRange semantics: the range [start, end) itself is
+	// recorded, in order with the other writes, and Write deletes every key the store holds in it
+	// at that time. (Recording a Delete for each key visible now would miss a key that reaches the
+	// store, directly or through another batch, between this call and Write.)
+	kv := keyValue{key: string(start), end: string(end), delete: true, rangeDelete: true}
+	b.writes = append(b.writes, kv)
+	b.ranges = append(b.ranges, kv)
 
-	for ok := it.Seek(start); ok; ok = it.Next() {
-		if bytes.Compare(it.Key(), end) >= 0 {
-			break
-		}
-
-		if err := b.Delete(it.Key()); err != nil {
-			return err
+	// earlier writes of this batch inside the range are deleted too
+	for k := range b.writeMap {
+		if kv.covers(k) {
+			b.writeMap[k] = keyValue{key: k, delete: true}
 		}
 	}
 
@@ -173,10 +196,18 @@ func (b *batch) Write() error {
 		return errDBClosed
 	}
 
-	for _, write := range b.writes {
-		if write.delete {
+	for i := range b.writes {
+		write := &b.writes[i]
+		switch {
+		case write.rangeDelete:
+			for k := range b.db.db {
+				if write.covers(k) {
+					delete(b.db.db, k)
+				}
+			}
+		case write.delete:
 			delete(b.db.db, write.key)
-		} else {
+		default:
 			b.db.db[write.key] = write.value
 		}
 	}
